@@ -39,6 +39,10 @@ enum K {
     Tok,
     Tok4,
     ZTok,
+    /// 520-byte plain value (above the size thresholds a generator might switch code paths at)
+    Big,
+    /// 136-byte plain value
+    Wide,
 }
 
 impl K {
@@ -59,6 +63,8 @@ impl K {
             K::Tok => "crate::support::Tok",
             K::Tok4 => "crate::support::Tok4",
             K::ZTok => "crate::support::ZTok",
+            K::Big => "crate::support::Big",
+            K::Wide => "crate::support::Wide",
         }
     }
     fn size_align(self) -> (usize, usize) {
@@ -76,6 +82,8 @@ impl K {
             K::BoxU32 => (8, 8),
             K::Tok => (2, 1),
             K::Tok4 => (8, 4),
+            K::Big => (520, 8),
+            K::Wide => (136, 8),
         }
     }
     fn copy(self) -> bool {
@@ -205,6 +213,43 @@ fn corpus() -> Vec<ModuleDef> {
                 Add("a", U32, false), Add("t", Tok, false), Add("b", U8, true), Close(S::Simple),
                 Remove("a"), Add("c", U64, false), Add("d", U16, true), Close(S::Simple),
                 Remove("t"), Remove("b"), Close(S::Simple),
+            ],
+        },
+        // a zero-size field added in the same step as a real field and fitted at the very offset of
+        // that field (end of an alignment gap), declared after it; then a droppable one likewise
+        ModuleDef {
+            name: "m_zst_share",
+            clone: false,
+            serde: false,
+            tier: "quick",
+            ops: vec![
+                Add("tag", U8, false), Close(S::Simple),
+                Add("old", U32, false), Close(S::Simple),
+                Remove("old"), Add("fresh", U32, false), Add("marker", Unit, false), Close(S::Simple),
+                Remove("fresh"), Add("lab", U16, false), Add("zt", ZTok, false), Close(S::Simple),
+            ],
+        },
+        // records larger than 128 bytes (clone and serialization fragments), droppable fields on
+        // both sides of the large one
+        ModuleDef {
+            name: "m_wide",
+            clone: true,
+            serde: true,
+            tier: "quick",
+            ops: vec![
+                Add("t", Tok, false), Add("wide", Wide, false), Add("v", Tok, false), Add("n", U16, true), Close(S::Simple),
+                Remove("t"), Add("c", U32, false), Close(S::Simple),
+            ],
+        },
+        // the same with records larger than 512 bytes
+        ModuleDef {
+            name: "m_big",
+            clone: true,
+            serde: true,
+            tier: "thorough",
+            ops: vec![
+                Add("t", Tok, false), Add("big", Big, false), Add("v", Tok, false), Add("n", U16, true), Close(S::Simple),
+                Remove("t"), Add("c", U32, false), Close(S::Simple),
             ],
         },
         // four variants, strategy mixture, u128, gaps refilled
@@ -710,6 +755,58 @@ fn harnesses(def: &ModuleDef, vars: &[Vec<Field>], max_size: usize, max_align: u
     o
 }
 
+/// Native (not Kani) harnesses: the panic clause of C16.  Kani does not unwind, so "a panic inside a
+/// field's clone leaks or double-drops nothing" cannot be an obligation there; as a bounded stand-in
+/// the real generated `clone` / `clone_from` are executed natively with a panic injected into the
+/// j-th clone of a droppable field, for every j, and the ghost drop ledger is checked afterwards.
+fn native_harnesses(def: &ModuleDef, vars: &[Vec<Field>]) -> (String, Vec<String>) {
+    let mut o = String::new();
+    let mut names = Vec::new();
+    if !def.clone {
+        return (o, names);
+    }
+    for (k, fields) in vars.iter().enumerate() {
+        let ntok = fields.iter().filter(|f| f.k.token() || f.k == K::ZTok).count();
+        for j in 0..ntok {
+            let name = format!("n16_v{k}_clone_panics_at_{j}");
+            writeln!(o, "    pub fn {name}() {{").unwrap();
+            writeln!(o, "        reset_ledger();").unwrap();
+            seeds(&mut o, fields, "s");
+            writeln!(o, "        let r = Record{k}::new({});", literal(&format!("UnpackedRecord{k}"), fields, &|f| format!("s_{}", f.var))).unwrap();
+            writeln!(o, "        arm_clone_panic({j});").unwrap();
+            writeln!(o, "        let res = std::panic::catch_unwind(std::panic::AssertUnwindSafe(|| r.clone()));").unwrap();
+            writeln!(o, "        disarm_clone_panic();").unwrap();
+            writeln!(o, "        assert!(res.is_err(), \"vacuity: clone number {j} of a droppable field was never reached\");").unwrap();
+            writeln!(o, "        drop(res);").unwrap();
+            check_acc(&mut o, "r", fields, &|f| format!("s_{}", f.var), "C16 source intact after a panic inside a field's clone");
+            writeln!(o, "        drop(r);").unwrap();
+            writeln!(o, "        assert!(no_token_dropped_twice(), \"C16 C06: a panic inside a field's clone made a value be destroyed twice\");").unwrap();
+            writeln!(o, "        assert!(no_token_leaked(), \"C16 C06: a panic inside a field's clone leaked a value\");").unwrap();
+            writeln!(o, "    }}\n").unwrap();
+            names.push(name);
+
+            let name = format!("n16_v{k}_clone_from_panics_at_{j}");
+            writeln!(o, "    pub fn {name}() {{").unwrap();
+            writeln!(o, "        reset_ledger();").unwrap();
+            seeds(&mut o, fields, "s");
+            seeds(&mut o, fields, "t");
+            writeln!(o, "        let src = Record{k}::new({});", literal(&format!("UnpackedRecord{k}"), fields, &|f| format!("s_{}", f.var))).unwrap();
+            writeln!(o, "        let mut tgt = Record{k}::new({});", literal(&format!("UnpackedRecord{k}"), fields, &|f| format!("t_{}", f.var))).unwrap();
+            writeln!(o, "        arm_clone_panic({j});").unwrap();
+            writeln!(o, "        let res = std::panic::catch_unwind(std::panic::AssertUnwindSafe(|| tgt.clone_from(&src)));").unwrap();
+            writeln!(o, "        disarm_clone_panic();").unwrap();
+            writeln!(o, "        assert!(res.is_err(), \"vacuity: clone number {j} of a droppable field was never reached\");").unwrap();
+            check_acc(&mut o, "src", fields, &|f| format!("s_{}", f.var), "C16 source intact after a panic inside clone_from");
+            writeln!(o, "        drop(src);\n        drop(tgt);").unwrap();
+            writeln!(o, "        assert!(no_token_dropped_twice(), \"C16 C06: a panic inside clone_from made a value be destroyed twice\");").unwrap();
+            writeln!(o, "        assert!(no_token_leaked(), \"C16 C06: a panic inside clone_from leaked a value\");").unwrap();
+            writeln!(o, "    }}\n").unwrap();
+            names.push(name);
+        }
+    }
+    (o, names)
+}
+
 fn main() {
     println!("cargo:rerun-if-changed=build.rs");
     println!("cargo:rerun-if-changed=/repo/truc/src");
@@ -719,6 +816,7 @@ fn main() {
     let dump = env::var("GK_DUMP_DIR").ok().map(PathBuf::from);
     let mut lib = String::new();
     let mut table = Vec::new();
+    let mut native_table: Vec<String> = Vec::new();
     let seed: u64 = env::var("GK_SEED").ok().and_then(|s| s.parse().ok()).unwrap_or(0);
     let nrandom: usize = env::var("GK_RANDOM").ok().and_then(|s| s.parse().ok()).unwrap_or(if tier == "thorough" { 12 } else { 2 });
     println!("cargo:rerun-if-env-changed=GK_SEED");
@@ -744,9 +842,14 @@ fn main() {
         }
         let vars = variant_fields(&def, &kinds);
         let h = harnesses(&m, &vars, def.max_size(), def.max_type_align());
-        writeln!(lib, "#[allow(dead_code, unused_variables, unused_mut, unused_imports, clippy::all)]\npub mod {name} {{\n    use crate::support::*;\n    include!(concat!(env!(\"OUT_DIR\"), \"/{name}.rs\"));\n    #[cfg(kani)]\n    pub mod h {{\n    use super::*;\n    use crate::support::*;\n{h}    }}\n}}\n", name = m.name).unwrap();
+        let (nh, nnames) = native_harnesses(&m, &vars);
+        for n in nnames {
+            native_table.push(format!("(\"{m}::n::{n}\", {m}::n::{n} as fn())", m = m.name));
+        }
+        writeln!(lib, "#[allow(dead_code, unused_variables, unused_mut, unused_imports, clippy::all)]\npub mod {name} {{\n    use crate::support::*;\n    include!(concat!(env!(\"OUT_DIR\"), \"/{name}.rs\"));\n    #[cfg(kani)]\n    pub mod h {{\n    use super::*;\n    use crate::support::*;\n{h}    }}\n    #[cfg(not(kani))]\n    pub mod n {{\n    use super::*;\n    use crate::support::*;\n{nh}    }}\n}}\n", name = m.name).unwrap();
         table.push(format!("{}: variants={} {}", m.name, vars.len(), def.to_string().replace('\n', " | ")));
     }
+    writeln!(lib, "#[cfg(not(kani))]\npub fn native_table() -> Vec<(&'static str, fn())> {{\n    vec![\n        {}\n    ]\n}}", native_table.join(",\n        ")).unwrap();
     fs::write(out.join("corpus.rs"), lib).unwrap();
     if let Some(d) = &dump {
         fs::write(d.join("corpus_table.txt"), table.join("\n")).unwrap();
